@@ -599,6 +599,17 @@ def pairing(rep, prog, rule, floor=150):
         ps = cs if vertical else cs * int(m.group(2))
         ks = 2 if kind == "u8" else 4
         sites = [c for c in f.calls() if MULS.match(c.method or short(c.name)) and len(c.args) == 2]
+        # the coefficients are SIGNED (negative lobes of Lanczos / CatmullRom / Mitchell): the
+        # widening multiply of a kernel must be the signed one
+        for c in f.calls():
+            nm = c.method or short(c.name)
+            if re.match(r"^_mm(256)?_mul_epu32$", nm):
+                rep.touch(f)
+                rep.bad(rule, "%s|%s|unsigned-multiply" % (f.name, nm), c.at,
+                        "%s multiplies with %s: the low 32 bits of each 64-bit lane are read as "
+                        "UNSIGNED, so a negative coefficient k enters the sum as 2^32 + k (every "
+                        "filter with negative lobes saturates the sample); the portable code and the "
+                        "sibling stages use the signed multiply" % (f.name, nm))
         if not sites:
             continue
         rep.touch(f)
